@@ -27,7 +27,7 @@ type AccountKey struct {
 }
 
 func (a AccountKey) Acc() sdk.AccAddress { return sdk.AccAddress(a.Addr.Bytes()) }
-func (a AccountKey) Bech32() string       { return a.Acc().String() }
+func (a AccountKey) Bech32() string      { return a.Acc().String() }
 
 func NewAccountKey(seed uint64, role string, idx int) AccountKey {
 	priv := &ethsecp256k1.PrivKey{Key: seedBytes(seed, role, idx)}
